@@ -15,7 +15,7 @@ import (
 // die (reported by the check script as rule process-crash for the run in
 // progress) instead of taking the sandbox down with it: cap the address space.
 func init() {
-	gib := uint64(8)
+	gib := uint64(6)
 	if v := os.Getenv("VERIF_FUZZ_AS_GIB"); v != "" {
 		if n, err := strconv.Atoi(v); err == nil {
 			gib = uint64(n)
